@@ -151,12 +151,12 @@ def accumulated_distances_rule(ctx, rule: str):
 
 def check(ctx):
     prog = ctx.prog
-    accumulated_distances_rule(ctx, "C11.7")
-    _downsample(ctx, prog)
-    _motion(ctx, prog)
-    _crop(ctx, prog)
-    _splits(ctx, prog)
-    _merge(ctx, prog)
+    ctx.section(accumulated_distances_rule, ctx, "C11.7")
+    ctx.section(_downsample, ctx, prog)
+    ctx.section(_motion, ctx, prog)
+    ctx.section(_crop, ctx, prog)
+    ctx.section(_splits, ctx, prog)
+    ctx.section(_merge, ctx, prog)
     # the splits cut where `distances` / `speeds` / timestamps jump: those
     # derived quantities must follow from the current poses, i.e. not be
     # cached across index reductions (instances of C08.7)
